@@ -15,6 +15,8 @@ type GenOpts struct {
 	Comm bool
 	// UniqueStores: every (output buffer, slot) is stored to by at most one op
 	UniqueStores bool
+	// ManyGroups: small work-groups, 65-280 of them (more groups than one GPU has compute units)
+	ManyGroups bool
 }
 
 var interestingImm = []uint32{0, 1, 2, 3, 5, 31, 32, 33, 63, 64, 100, 255, 256, 0xffff, 0x10000, 0xffffff, 0x1000000,
@@ -27,8 +29,48 @@ func genImm(t *rapid.T) uint32 {
 	return rapid.SampledFrom(interestingImm).Draw(t, "imm")
 }
 
+func genManyGroups(t *rapid.T, o GenOpts, full bool) Geometry {
+	var g Geometry
+	dims := rapid.IntRange(1, 3).Draw(t, "dims")
+	g.WG = [3]uint16{1, 1, 1}
+	g.Grid = [3]uint32{1, 1, 1}
+	total := rapid.IntRange(65, 280).Draw(t, "groups")
+	var n [3]int
+	switch dims {
+	case 1:
+		n = [3]int{total, 1, 1}
+	case 2:
+		a := rapid.IntRange(2, 16).Draw(t, "ga")
+		n = [3]int{a, (total + a - 1) / a, 1}
+	default:
+		a, b := rapid.IntRange(2, 6).Draw(t, "ga"), rapid.IntRange(2, 6).Draw(t, "gb")
+		n = [3]int{a, b, (total + a*b - 1) / (a * b)}
+	}
+	left := 16
+	if o.Comm {
+		left = 128
+	}
+	for d := 0; d < dims; d++ {
+		w := rapid.SampledFrom([]int{1, 1, 2, 3, 4, 5, 8, 16, 64, 128}).Draw(t, "wg")
+		if w > left {
+			w = left
+		}
+		left /= w
+		g.WG[d] = uint16(w)
+		size := n[d] * w
+		if o.Partial && !full && w > 1 && rapid.Bool().Draw(t, "partial") {
+			size = (n[d]-1)*w + rapid.IntRange(1, w).Draw(t, "cut")
+		}
+		g.Grid[d] = uint32(size)
+	}
+	return g
+}
+
 // GenGeometry draws a dispatch geometry.
 func GenGeometry(t *rapid.T, o GenOpts, full bool) Geometry {
+	if o.ManyGroups {
+		return genManyGroups(t, o, full)
+	}
 	var g Geometry
 	dims := rapid.IntRange(1, 3).Draw(t, "dims")
 	// work-group sizes: product <= 1024, powers of two and odd sizes
